@@ -1,7 +1,7 @@
 (* Extract.v — extraction of the executable model to OCaml (ExtrOcamlBasic only). *)
 Require Extraction.
 Require Import ExtrOcamlBasic.
-From QCo.Model Require Import Base Consts Frozen DType Time Codec Writer Reader Spec.
+From QCo.Model Require Import Base Consts Frozen DType Time Codec Policy Writer Reader Spec.
 Extraction Language OCaml.
 Extraction "qco_model.ml"
   all_dtypes hdr phys ubits sdt valid representable to_u of_u to_s of_s to_bytes of_bytes
@@ -12,4 +12,5 @@ Extraction "qco_model.ml"
   w_init w_step w_run file_bytes chunk_payload header_bytes cfg_flags
   r_init r_step r_do r_run decode_file drain_iter
   enc_file dec_file file_nums chunk_nums chunk_unsigneds
-  st2ts ts2st ts96_new st_ok.
+  st2ts ts2st ts96_new st_ok
+  choose_unoptimized choose_max_n_prefixes pgcd gcd_sorted.
